@@ -18,6 +18,7 @@ import (
 	"mime/multipart"
 	"net"
 	"net/http"
+	"net/http/httptest"
 	"os"
 	"strings"
 	"sync"
@@ -57,11 +58,16 @@ type fakeMaster struct {
 	mu         sync.Mutex
 	next       uint64
 	failAssign bool
-	assignHit  bool // a scripted assign failure was actually served
+	assignHit  bool   // a scripted assign failure was actually served
+	volAddr    string // host:port of the blob server (the volume server of every fid)
 }
 
 func (m *fakeMaster) KeepConnected(stream master_pb.Seaweed_KeepConnectedServer) error {
 	if _, err := stream.Recv(); err != nil {
+		return err
+	}
+	// volumes 3 (assigned) and 7 (pre-made chunks) live on the blob server
+	if err := stream.Send(&master_pb.VolumeLocation{Url: m.volAddr, PublicUrl: m.volAddr, NewVids: []uint32{3, 7}}); err != nil {
 		return err
 	}
 	<-stream.Context().Done()
@@ -78,8 +84,8 @@ func (m *fakeMaster) Assign(ctx context.Context, req *master_pb.AssignRequest) (
 	m.next++
 	return &master_pb.AssignResponse{
 		Fid:       needle.NewFileId(3, m.next, 0x5eed0c25).String(),
-		Url:       "c25-volume.invalid:8080",
-		PublicUrl: "c25-volume.invalid:8080",
+		Url:       m.volAddr,
+		PublicUrl: m.volAddr,
 		Count:     1,
 	}, nil
 }
@@ -99,6 +105,8 @@ type fakeVolume struct {
 	transient map[string]int // clear chunk content -> remaining number of failures
 	permHit   bool           // a poisoned upload was attempted
 	uploads   int
+	uploaded  []string                 // fids stored during the current request
+	delay     map[string]time.Duration // clear chunk content -> how long its upload takes
 }
 
 func (v *fakeVolume) reset() {
@@ -106,6 +114,8 @@ func (v *fakeVolume) reset() {
 	v.poison = nil
 	v.transient = map[string]int{}
 	v.permHit = false
+	v.uploaded = nil
+	v.delay = map[string]time.Duration{}
 	v.mu.Unlock()
 }
 
@@ -150,6 +160,13 @@ func (v *fakeVolume) Do(req *http.Request) (*http.Response, error) {
 	fid := strings.TrimPrefix(req.URL.Path, "/")
 
 	v.mu.Lock()
+	d := v.delay[string(clear)]
+	v.mu.Unlock()
+	if d > 0 {
+		time.Sleep(d) // later chunks overtake this one
+	}
+
+	v.mu.Lock()
 	defer v.mu.Unlock()
 	v.uploads++
 	for _, p := range v.poison {
@@ -163,10 +180,44 @@ func (v *fakeVolume) Do(req *http.Request) (*http.Response, error) {
 		return nil, fmt.Errorf("c25: scripted transient upload failure")
 	}
 	v.blobs[fid] = blob{data: data, gz: gz}
+	v.uploaded = append(v.uploaded, fid)
 	sum := md5.Sum(clear)
 	resp := jsonResponse(http.StatusCreated, map[string]interface{}{"name": part.FileName(), "size": len(clear), "eTag": fmt.Sprintf("%x", sum[:4])})
 	resp.Header.Set("Content-MD5", util.Base64Encode(sum[:]))
 	return resp, nil
+}
+
+// serveBlob is the read side of the fake volume server, behind a real HTTP
+// listener: the real read path (GetOrHeadHandler -> filer.StreamContent ->
+// util.ReadUrlAsStream) fetches chunk data from it.  Like a volume server it
+// serves a gzipped needle as gzip to a client that accepts it and unzipped
+// (with Range support) otherwise; encrypted needles are opaque bytes.
+func (v *fakeVolume) serveBlob(w http.ResponseWriter, r *http.Request) {
+	fid := strings.TrimPrefix(r.URL.Path, "/")
+	v.mu.Lock()
+	b, ok := v.blobs[fid]
+	v.mu.Unlock()
+	if !ok {
+		http.Error(w, "no such needle", http.StatusNotFound)
+		return
+	}
+	data := b.data
+	if b.gz {
+		if strings.Contains(r.Header.Get("Accept-Encoding"), "gzip") && r.Header.Get("Range") == "" {
+			w.Header().Set("Content-Encoding", "gzip")
+			w.Header().Set("Content-Type", "application/octet-stream")
+			w.Write(data)
+			return
+		}
+		c, err := util.DecompressData(data)
+		if err != nil {
+			http.Error(w, "gunzip", http.StatusInternalServerError)
+			return
+		}
+		data = c
+	}
+	w.Header().Set("Content-Type", "application/octet-stream")
+	http.ServeContent(w, r, "", time.Time{}, bytes.NewReader(data))
 }
 
 // put stores a chunk directly (for entries created through the gRPC path).
@@ -189,6 +240,7 @@ type world struct {
 	master *fakeMaster
 	vol    *fakeVolume
 	gsrv   *grpc.Server
+	bsrv   *httptest.Server
 	ctx    context.Context
 }
 
@@ -213,22 +265,32 @@ func newWorld() *world {
 	}
 	grpcPort := lis.Addr().(*net.TCPAddr).Port
 	masterAddr := fmt.Sprintf("127.0.0.1:%d", grpcPort-10000)
-	w.master = &fakeMaster{}
+	w.vol = &fakeVolume{blobs: map[string]blob{}, transient: map[string]int{}, delay: map[string]time.Duration{}}
+	operation.HttpClient = w.vol
+	w.bsrv = httptest.NewServer(http.HandlerFunc(w.vol.serveBlob))
+	w.master = &fakeMaster{volAddr: strings.TrimPrefix(w.bsrv.URL, "http://")}
 	w.gsrv = grpc.NewServer()
 	master_pb.RegisterSeaweedServer(w.gsrv, w.master)
 	go w.gsrv.Serve(lis)
 
-	w.vol = &fakeVolume{blobs: map[string]blob{}, transient: map[string]int{}}
-	operation.HttpClient = w.vol
-
 	dial := grpc.WithInsecure()
-	w.f = filer.NewFiler([]string{masterAddr}, dial, "127.0.0.1", 18888, "", "", "", func() {})
+	// NewFiler without the background deletion loop: the deletion queue is drained by the harness
+	w.f = filer.VerifC25NewFiler([]string{masterAddr}, dial, "127.0.0.1", 18888, "", "", "", func() {})
 	w.store = &leveldb2.LevelDB2Store{}
 	must(w.store.Initialize(dirConf{dir}, "leveldb2."))
 	w.f.SetStore(w.store)
 	w.f.DirBucketsPath = "/buckets"
 	go w.f.MasterClient.KeepConnectedToMaster()
 	w.f.MasterClient.WaitUntilConnected()
+	for i := 0; ; i++ { // until the volume locations sent by the fake master have arrived
+		if _, ok := w.f.MasterClient.GetLocations(3); ok {
+			break
+		}
+		if i > 5000 {
+			panic("no volume locations from the fake master")
+		}
+		time.Sleep(time.Millisecond)
+	}
 
 	w.fs = weed_server.VerifC25NewFilerServer(w.f, dial, weed_server.VerifC25Options{MaxMB: 1})
 	return w
@@ -236,6 +298,7 @@ func newWorld() *world {
 
 func (w *world) close() {
 	w.gsrv.Stop()
+	w.bsrv.Close()
 	w.store.Shutdown()
 	os.RemoveAll(w.dir)
 }
@@ -246,6 +309,7 @@ type obsChunk struct {
 	off  int64
 	size uint64
 	data []byte
+	fid  string
 }
 
 type obsEntry struct {
@@ -253,6 +317,7 @@ type obsEntry struct {
 	content []byte
 	chunks  []obsChunk
 	md5     []byte
+	isDir   bool
 }
 
 func (w *world) chunkData(c *filer_pb.FileChunk) []byte {
@@ -288,12 +353,12 @@ func (w *world) observe(path string) *obsEntry {
 	if err != nil || e == nil {
 		return nil
 	}
-	o := &obsEntry{size: e.FileSize, content: e.Content, md5: e.Md5}
+	o := &obsEntry{size: e.FileSize, content: e.Content, md5: e.Md5, isDir: e.IsDirectory()}
 	for _, c := range e.Chunks {
 		if c.IsChunkManifest {
 			panic("unexpected manifest chunk")
 		}
-		o.chunks = append(o.chunks, obsChunk{off: c.Offset, size: c.Size, data: w.chunkData(c)})
+		o.chunks = append(o.chunks, obsChunk{off: c.Offset, size: c.Size, data: w.chunkData(c), fid: c.GetFileIdString()})
 	}
 	return o
 }
@@ -337,4 +402,66 @@ func must(err error) {
 	if err != nil {
 		panic(err)
 	}
+}
+
+// createDir creates a directory entry through the real gRPC CreateEntry handler.
+func (w *world) createDir(path string) {
+	dir, name := util.FullPath(path).DirAndName()
+	now := time.Now()
+	resp, err := w.fs.CreateEntry(w.ctx, &filer_pb.CreateEntryRequest{
+		Directory: dir,
+		Entry: &filer_pb.Entry{
+			Name:        name,
+			IsDirectory: true,
+			Attributes:  &filer_pb.FuseAttributes{Mtime: now.Unix(), Crtime: now.Unix(), FileMode: uint32(os.ModeDir) | 0770},
+		},
+	})
+	must(err)
+	if resp.Error != "" {
+		panic(resp.Error)
+	}
+}
+
+// takeDeletions drains the filer's chunk deletion queue (file ids handed to
+// Filer.DeleteChunks since the last call) and removes those blobs, as the
+// deletion loop would.
+func (w *world) takeDeletions() map[string]bool {
+	out := w.pendingDeletions()
+	w.dropBlobs(out)
+	return out
+}
+
+// get performs a real GET (optionally ranged) through filerHandler ->
+// GetOrHeadHandler -> StreamContent, which fetches the chunks from the blob server.
+func (w *world) get(path string, from, length int64) (int, []byte) {
+	r := httptest.NewRequest("GET", path, nil)
+	if length > 0 {
+		r.Header.Set("Range", fmt.Sprintf("bytes=%d-%d", from, from+length-1))
+	}
+	rec := httptest.NewRecorder()
+	w.fs.VerifC25FilerHandler(rec, r)
+	return rec.Code, rec.Body.Bytes()
+}
+
+// pendingDeletions drains the deletion queue without touching the blobs.
+func (w *world) pendingDeletions() map[string]bool {
+	out := map[string]bool{}
+	for {
+		ids := w.f.VerifPendingChunkDeletions()
+		if len(ids) == 0 {
+			break
+		}
+		for _, id := range ids {
+			out[id] = true
+		}
+	}
+	return out
+}
+
+func (w *world) dropBlobs(ids map[string]bool) {
+	w.vol.mu.Lock()
+	for id := range ids {
+		delete(w.vol.blobs, id)
+	}
+	w.vol.mu.Unlock()
 }
